@@ -1130,8 +1130,12 @@ fn run_c14(ctx: &mut Ctx) -> Result<RunOut, Violation> {
 
     // The clock moves between the two requests.
     let t = &mut ctx.tape;
-    let jump = t.draw(8);
+    let jump = t.draw(11);
     let t2: u128 = match jump {
+        // less than a second later, but in the next calendar second
+        8 => (t1 / NS + 1) * NS + (t1 % NS) / 2,
+        9 => (t1 / NS + 1) * NS + [0u128, 1, 500_000_000][t.draw(3) as usize].min((t1 % NS).saturating_sub(1)),
+        10 => t1 + 999_999_999,
         0 => t1,
         1 => t1 + 1,
         2 => (t1 / NS + 1) * NS,
